@@ -163,9 +163,22 @@ def consts_of(ctx, clsqual, fn=None):
     return out
 
 
+def classnames_of(ctx, clsqual):
+    """every name bound at class level in a repository class and its repository bases (evaluable or not)"""
+    out = set()
+    c = ctx.prog.cls(clsqual)
+    for b in c.bases:
+        for q, ci in ctx.prog.classes.items():
+            if ci.name == b.split('.')[-1] and ci is not c:
+                out |= classnames_of(ctx, q)
+    out |= set(c.consts)
+    return out
+
+
 def instance(ctx, clsqual, fields, fn, isa=None):
     c = ctx.prog.cls(clsqual)
     o = orders.Obj(dict(fields), methods_of(ctx, clsqual), fn, isa=isa or {c.name})
+    o.classnames = classnames_of(ctx, clsqual)
     o.clsname = c.name
     o.clsqual = clsqual
     o.consts = consts_of(ctx, clsqual, fn)
@@ -227,6 +240,7 @@ class ClassRef(orders.PyStub):
         obj = instance(self._ctx, self._qual, {}, self._fn, isa=all_bases(self._ctx, self._qual))
         if '__init__' in obj.methods:
             obj.call('__init__', *args, **kwargs)
+        obj.constructed = True          # every field comes from the repository's own constructor: a missing one is an AttributeError
         return obj
 
 
